@@ -126,6 +126,9 @@ class Play:
                     res["csv"][f] = open(os.path.join(rd, "csv", f)).read()
                 except OSError:
                     pass
+        res["plot_gp"] = None
+        if rd and os.path.isfile(os.path.join(rd, "plots", "plot.gp")):
+            res["plot_gp"] = open(os.path.join(rd, "plots", "plot.gp")).read()
         res["tree"] = read_tree(odir) if os.path.isdir(odir) else []
         try:
             res["latest"] = os.readlink(os.path.join(odir, "latest"))
